@@ -224,24 +224,39 @@ size_t j_print(const jv *v, char *buf, size_t cap)
 }
 
 static int hexv(int ch) { return ch >= '0' && ch <= '9' ? ch - '0' : ch >= 'A' && ch <= 'F' ? ch - 'A' + 10 : ch >= 'a' && ch <= 'f' ? ch - 'a' + 10 : -1; }
+/* "%*N*c" stands for N copies of the character c (very long strings, written short) */
+static const char *pct_run(const char *r, long *n)
+{
+  if (r[0] != '%' || r[1] != '*') return NULL;
+  char *end; long v = strtol(r + 2, &end, 10);
+  if (end == r + 2 || *end != '*' || !end[1] || v < 0) return NULL;
+  *n = v; return end + 1;
+}
 char *j_pct_decode(char *s)
 {
   if (!s) return s;
-  char *w = s;
+  size_t need = strlen(s) + 1; int runs = 0;
+  for (const char *r = s; *r; r++) { long n; if (pct_run(r, &n)) { need += (size_t) n; runs = 1; } }
+  char *out = runs ? malloc(need) : s;   /* (a string with a run token grows: it gets a buffer of its own) */
+  char *w = out;
   for (const char *r = s; *r; ) {
-    if (r[0] == '%' && hexv((unsigned char) r[1]) >= 0 && hexv((unsigned char) r[2]) >= 0 && (hexv((unsigned char) r[1]) * 16 + hexv((unsigned char) r[2])) != 0) {
+    long n; const char *c;
+    if ((c = pct_run(r, &n)) != NULL) { memset(w, *c, (size_t) n); w += n; r = c + 1; }
+    else if (r[0] == '%' && hexv((unsigned char) r[1]) >= 0 && hexv((unsigned char) r[2]) >= 0 && (hexv((unsigned char) r[1]) * 16 + hexv((unsigned char) r[2])) != 0) {
       *w++ = (char) (hexv((unsigned char) r[1]) * 16 + hexv((unsigned char) r[2])); r += 3;
     } else *w++ = *r++;
   }
   *w = 0;
-  return s;
+  return out;
 }
 char *j_pct_encode(const char *s)
 {
   size_t n = strlen(s);
   char *o = malloc(3 * n + 1), *w = o;
   for (const unsigned char *r = (const unsigned char *) s; *r; r++) {
-    if (*r < 0x20 || *r >= 0x7f || *r == '%') { static const char hx[] = "0123456789ABCDEF"; *w++ = '%'; *w++ = hx[*r >> 4]; *w++ = hx[*r & 15]; }
+    size_t run = 1; while (r[run] == *r) run++;
+    if (run >= 256 && *r >= 0x20 && *r < 0x7f && *r != '%') { w += sprintf(w, "%%*%zu*%c", run, *r); r += run - 1; }
+    else if (*r < 0x20 || *r >= 0x7f || *r == '%') { static const char hx[] = "0123456789ABCDEF"; *w++ = '%'; *w++ = hx[*r >> 4]; *w++ = hx[*r & 15]; }
     else *w++ = (char) *r;
   }
   *w = 0;
